@@ -33,6 +33,10 @@ def run(tier, seed, scale):
     sites = {k[7:]: v for k, v in s.items() if k.startswith("throws.")}
     for need in ("body", "range_copy", "range_split", "body_split", "feeder_item", "filter", "comparator", "combine", "fg_body", "join"):
         chk.require(sites.get(need, 0) > (0 if need == "join" else 100), "throw site '%s' fired only %d times" % (need, sites.get(need, 0)))
+    swaps = {k[len("throws_after_context_swap."):]: v for k, v in s.items() if k.startswith("throws_after_context_swap.")}
+    for need in ("execute(same arena) then throw", "attach.execute then throw", "graph.wait_for_all then throw", "isolate then throw", "throw inside execute(same arena)"):
+        chk.require(swaps.get(need, 0) > 100, "only %d calls threw from a plain body after '%s'" % (swaps.get(need, 0), need))
+    chk.extra["throws_from_bodies_that_first_made_the_library_swap_their_context"] = swaps
     chk.extra["throws_by_site"] = sites
     chk.extra["calls_by_construct"] = {k[6:]: v for k, v in s.items() if k.startswith("calls.")}
     chk.extra["calls_with_concurrent_throws"] = s.get("calls_with_concurrent_throws", 0)
